@@ -22,6 +22,6 @@ MANIFEST_ENTRY = dict(
     category='other',
     engine='bounded',
     technique='sidecar contracts on the real functions: wiring / closed-form obligations from the AST discharged by z3 and the ring normaliser where the functions are within reach; bounded run-time contracts with independent oracles for the rest (never counted as proved)',
-    text='Discharged from the real source on every run (all values, stated small shapes): _sizes_at_time, _make_nu_func, _get_integration_parameters (T, 2 Ne m, frozen flags, epoch order), _migration_rate_in_interval, _integrate_phi argument map 1-5 D, _admix_phi / _admix_new_pop_phi / _split_phi for every destination and source order (2-5 demes), _apply_event dispatch and deme order, name inheritance of the export through Split/Remove/Reorder, DemesUtil._shift_deme_time (kept epochs, shifted times, size at the slice time from the own span of the epoch), _size_at closed forms and end points, the event each integrator records (duration T - initial_t, sizes, rates, names; constant and time-dependent paths, 1-5 D). Bounded run-time contracts (never counted as proved): Random demes graphs against hand-written dadi programs, unit/size/order invariances, ancient samples, export and re-import.',
+    text='Discharged from the real source on every run (all values, stated small shapes): _sizes_at_time, _make_nu_func, _get_integration_parameters (T, 2 Ne m, frozen flags, epoch order), _migration_rate_in_interval, _integrate_phi argument map 1-5 D, _admix_phi / _admix_new_pop_phi / _split_phi for every destination and source order (2-5 demes), _apply_event dispatch and deme order, name inheritance of the export through Split/Remove/Reorder, DemesUtil._shift_deme_time (kept epochs, shifted times, size at the slice time from the own span of the epoch), _size_at closed forms and end points, IntegrationNonConst.check_linear, the event each integrator records (duration T - initial_t, sizes, rates, names; constant and time-dependent paths, 1-5 D). Bounded run-time contracts (never counted as proved): Random demes graphs against hand-written dadi programs, unit/size/order invariances, ancient samples, export and re-import.',
     note='bounded: see coverage.bounded.drivers[].bound in the evidence file for the exact domain of every driver',
 )
